@@ -45,17 +45,21 @@ Definition ty_s (t : ty) : string := (if uns t then "unsigned " else "") ++ ity_
 Fixpoint sep_by (sep : string) (l : list string) : string :=
   match l with [] => "" | [x] => x | x :: r => x ++ sep ++ sep_by sep r end.
 
+(* "( ident [" is taken for a cast to an array type by the parser (it reports and backtracks, and
+   may crash later): a parenthesised expression never starts with an array reference *)
+Definition lead (e : expr) : string := match e with EIdx _ _ => "0 + " | _ => "" end.
+
 Fixpoint pe (e : expr) : string :=
   match e with
   | ENum z => lit z
   | EVar x => var x
   | EUn o a => "( " ++ unop_s o ++ " " ++ pe a ++ " )"
-  | EBin Gt a b => "( " ++ pe a ++ " > 0 + " ++ pe b ++ " )"
-  | EBin o a b => "( " ++ pe a ++ " " ++ binop_s o ++ " " ++ pe b ++ " )"
-  | EAnd a b => "( " ++ pe a ++ " && " ++ pe b ++ " )"
-  | EOr a b => "( " ++ pe a ++ " || " ++ pe b ++ " )"
-  | ECond c a b => "( " ++ pe c ++ " ? " ++ pe a ++ " : " ++ pe b ++ " )"
-  | ECall f args => fn f ++ "( " ++ sep_by " , " (map pe args) ++ " )"
+  | EBin Gt a b => "( " ++ lead a ++ pe a ++ " > 0 + " ++ pe b ++ " )"
+  | EBin o a b => "( " ++ lead a ++ pe a ++ " " ++ binop_s o ++ " " ++ pe b ++ " )"
+  | EAnd a b => "( " ++ lead a ++ pe a ++ " && " ++ pe b ++ " )"
+  | EOr a b => "( " ++ lead a ++ pe a ++ " || " ++ pe b ++ " )"
+  | ECond c a b => "( " ++ lead c ++ pe c ++ " ? " ++ pe a ++ " : " ++ pe b ++ " )"
+  | ECall f args => fn f ++ "( " ++ sep_by " , " (map (fun a => lead a ++ pe a) args) ++ " )"
   | EIdx a idx => var a ++ concat "" (map (fun i => "[ " ++ pe i ++ " ]") idx)
   end.
 
@@ -101,15 +105,15 @@ Fixpoint ps (fuel : nat) (s : stmt) {struct fuel} : string :=
     | SIncDec pre inc lv =>
         (if pre then (if inc then "++ " else "-- ") ++ plv lv else plv lv ++ (if inc then " ++" else " --")) ++ " ;"
     | SExpr e => pe e ++ " ;"
-    | SIf c s1 s2 => "if ( " ++ pe c ++ " ) " ++ blk s1 ++ (match s2 with [] => "" | _ => " else " ++ blk s2 end)
-    | SWhile c body => "while ( " ++ pe c ++ " ) " ++ blk body
+    | SIf c s1 s2 => "if ( " ++ lead c ++ pe c ++ " ) " ++ blk s1 ++ (match s2 with [] => "" | _ => " else " ++ blk s2 end)
+    | SWhile c body => "while ( " ++ lead c ++ pe c ++ " ) " ++ blk body
     | SFor init c upd body => "for ( " ++ clause init ++ " ; " ++ pe c ++ " ; " ++ clause upd ++ " ) " ++ blk body
     | SBreak => "break ;"
     | SContinue => "continue ;"
     | SReturn None => "return ;"
     | SReturn (Some e) => "return " ++ pe e ++ " ;"
     | SBlock ss => blk ss
-    | SPrint n args => (if n then "println" else "print") ++ "( " ++ sep_by " , " (map pe args) ++ " ) ;"
+    | SPrint n args => (if n then "println" else "print") ++ "( " ++ sep_by " , " (map (fun a => lead a ++ pe a) args) ++ " ) ;"
     end
   end.
 
